@@ -326,6 +326,9 @@ def family(max_n=130):
                     "field assignment of an implicit assertion on %s<V%d, %s>" % (ty, v, purpose)))
     out.extend(conversion_table_programs(max_n))
     out.extend(assoc_programs(harvested_names()))
+    ft = foreign_table_program()
+    if ft is not None:
+        out.append(ft)
     seen = set()
     for p in out:
         assert p.ident not in seen, p.ident
@@ -535,6 +538,109 @@ def assoc_existing(p):
     return [n for n in p.names if not (bad.get(n, set()) - {"E0282", "E0283", "E0284"})]
 
 
+# ---- source types that belong to a DEPENDENCY of the library (ed25519_dalek::VerifyingKey, p384::PublicKey, ring's key pairs ...):
+#      harvested from the `impl From<..> / TryFrom<..> for <typed key>` headers of the library's own source, so that a
+#      newly added conversion from such a type is always among the rows. A foreign key type holds key material of ONE
+#      fixed size: it may convert into typed keys of one length class only, never into a v1 key (those are DER documents
+#      of variable size), never into a type that must not be constructible.
+def repo_dependencies():
+    import tomllib
+    try:
+        with open(os.path.join(REPO, "Cargo.toml"), "rb") as f:
+            deps = tomllib.load(f).get("dependencies", {})
+    except (OSError, ValueError):
+        return {}
+    out = {}
+    for name, spec in deps.items():
+        ver = spec if isinstance(spec, str) else spec.get("version")
+        if ver:
+            out[name.replace("-", "_")] = (name, ver)
+    return out
+
+
+def foreign_sources():
+    import glob
+    import re
+    deps = repo_dependencies()
+    found = set()
+    pat = re.compile(r"impl\s*(?:<[^{;]*?>)?\s*(?:Try)?From\s*<\s*(.+?)\s*>\s*for\s+Paseto(?:SymmetricKey|AsymmetricPrivateKey|AsymmetricPublicKey|Nonce)\b", re.S)
+    for f in glob.glob(os.path.join(REPO, "src", "**", "*.rs"), recursive=True):
+        try:
+            text = open(f, errors="replace").read()
+        except OSError:
+            continue
+        for m in pat.finditer(text):
+            src = " ".join(m.group(1).split())
+            root = re.sub(r"^(&\s*('\w+\s+)?(mut\s+)?)+", "", src).split("::")[0].strip()
+            if root in deps and "::" in src:
+                src = re.sub(r"'\w+", "'static", src)
+                src = re.sub(r"&\s*(?!')", "&'static ", src)
+                found.add((src, root))
+    return sorted(found), deps
+
+
+def foreign_table_program():
+    sources, deps = foreign_sources()
+    if not sources:
+        return None
+    rows = []
+    for kind, v, purpose, ty in table_targets():
+        for src, _ in sources:
+            for trait, w in (("From", "ViaFrom"), ("TryFrom", "ViaTryFrom")):
+                rows.append('const _: () = assert!(!<%s<%s, %s>>::HOLDS, "FOREIGN|%s|%d|%s|%s|%s|%s");\n' % (w, ty, src, kind, v, purpose, ty, trait, src))
+    p = P("table_foreign_sources", "conversion-table", PROBE_HEAD + "".join(rows) + "fn main() {}\n", None,
+          "conversions from %d source type(s) of dependency crates (%s) into the 32 typed key / nonce types" % (len(sources), ", ".join(s for s, _ in sources)))
+    p.extra_deps = sorted(set((deps[root][0], deps[root][1]) for _, root in sources))
+    p.sources = [s for s, _ in sources]
+    return p
+
+
+def foreign_violations(p, errs):
+    """existing conversions from foreign key types, judged: forbidden targets, v1 keys, more than one length class"""
+    exists = {}
+    for _, m in errs:
+        if "FOREIGN|" not in m:
+            continue
+        kind, v, purpose, ty, trait, src = m.split("FOREIGN|", 1)[1].split("|")[:6]
+        src = src.strip().split("\n")[0]
+        exists.setdefault(src, []).append((kind, int(v), purpose, ty, trait))
+    out = []
+    for src, rows in exists.items():
+        lengths = {}
+        for kind, v, purpose, ty, trait in rows:
+            typed_ok = (kind in ("sym", "nonce") and purpose == "Local") or (kind in ("priv", "pub") and purpose == "Public")
+            if not typed_ok:
+                why = "a type that must not be constructible"
+            elif kind in ("priv", "pub") and v == 1:
+                why = "a v1 key (a DER document of variable size) from a fixed-size foreign key type"
+            else:
+                why = None
+                size = {"sym": 32, "nonce": 32, "priv": 48 if v == 3 else 64, "pub": 49 if v == 3 else 32}[kind]
+                lengths.setdefault((kind, size), []).append((v, ty, trait))
+            if why:
+                out.append((src, ty, trait, why))
+        for kind in ("sym", "nonce", "priv", "pub"):
+            sizes = sorted(sz for (k, sz) in lengths if k == kind)
+            if len(sizes) > 1:
+                # one foreign type cannot be the right length for both: the minority length class is the wrong one
+                by_size = {sz: lengths[(kind, sz)] for sz in sizes}
+                majority = max(sizes, key=lambda sz: len(by_size[sz]))
+                for sz in sizes:
+                    if sz != majority:
+                        for v, ty, trait in by_size[sz]:
+                            out.append((src, ty, trait, "keys of %d and of %d bytes both convert from this one foreign key type" % (majority, sz)))
+    res = []
+    for src, ty, trait, why in out:
+        ident = "rowf_" + hashlib.sha256(("%s|%s|%s" % (ty, trait, src)).encode()).hexdigest()[:10]
+        w = "ViaFrom" if trait == "From" else "ViaTryFrom"
+        q = P(ident, "conversion-table", PROBE_HEAD + 'const _: () = assert!(!<%s<%s, %s>>::HOLDS, "FOREIGN|x|0|x|%s|%s|%s");\n' % (w, ty, src, ty, trait, src) + "fn main() {}\n", True,
+              "%s: %s<%s> exists: %s" % (ty, trait, src, why))
+        q.extra_deps = p.extra_deps
+        q.sig = "%s:conversion-exists:%s:%s<%s>" % (PID, ty.replace("'static, ", "").replace(" ", ""), trait, src.replace("'static ", "").replace(" ", ""))
+        res.append((q, "%s: %s<%s> compiles - %s" % (ty, trait, src, why)))
+    return res
+
+
 CONSTRUCTOR_ARGS = ["", "Key::<32>::from([0u8; 32])", "&Key::<32>::from([0u8; 32])", "Key::<64>::from([0u8; 64])", "&Key::<64>::from([0u8; 64])", "&Key::<48>::from([0u8; 48])",
                     "&Key::<49>::from([2u8; 49])", "[0u8; 32]", "&[0u8; 32]", "&[0u8; 32][..]", "vec![0u8; 32]", "\"00\"", "String::new()"]
 
@@ -627,8 +733,12 @@ def write_evidence(tier, seed, t0, cov, violations):
 def prepare(pkg, programs):
     shutil.rmtree(pkg, ignore_errors=True)
     os.makedirs(os.path.join(pkg, "src", "bin"))
+    extra = sorted(set(d for p in programs for d in getattr(p, "extra_deps", [])))
     with open(os.path.join(pkg, "Cargo.toml"), "w") as f:
-        f.write(CARGO_TOML % REPO)
+        toml = CARGO_TOML % REPO
+        if extra:
+            toml = toml.replace("\n[workspace]", "".join('%s = "%s"\n' % (n, v) for n, v in extra if n != "serde") + "\n[workspace]")
+        f.write(toml)
     shutil.copy(os.path.join(HERE, "smoke", "Cargo.lock"), os.path.join(pkg, "Cargo.lock"))
     for p in programs:
         with open(os.path.join(pkg, "src", "bin", p.ident + ".rs"), "w") as f:
@@ -667,6 +777,7 @@ def main():
         with open(args[1]) as f:
             rep = json.load(f)
         one = P(rep["case"]["ident"], rep["case"]["group"], rep["case"]["source"], rep["case"]["must_compile"], rep["case"]["what"])
+        one.extra_deps = [tuple(d) for d in rep["case"].get("extra_deps", [])]
         prepare(pkg, [one])
         compiled, errors, lib_ok, _ = run_cargo(pkg, target)
         if not lib_ok and not compiled and "rusty_paseto" in errors:
@@ -721,12 +832,19 @@ def main():
             st, d = judge(q, c3, e3)
             if st == "violation":
                 results.append((q, st, d))
+    for p in fam:
+        if p.ident == "table_foreign_sources":
+            for q, d in foreign_violations(p, errors.get(p.ident, [])):
+                results.append((q, "violation", d))
+            by_group_extra = len(getattr(p, "sources", []))
     gen_errors = [(p, d) for p, st, d in results if st == "generator-error"]
     violations = []
     for p, st, d in results:
         if st != "violation":
             continue
         rows = table_violations(p, errors.get(p.ident, [])) if p.group == "conversion-table" else []
+        if p.ident == "table_foreign_sources":
+            rows = []
         violations.extend(rows[:6] if rows else [(p, d)])
     # sanity of the family itself: every positive template must compile, otherwise negatives mean nothing
     known = load_known()
@@ -741,7 +859,7 @@ def main():
         h = hashlib.sha256(sig.encode()).hexdigest()[:12]
         path = os.path.join(VERIF, "replays", "%s-%s.json" % (PID, h))
         with open(path, "w") as f:
-            json.dump({"property": PID, "signature": sig, "detail": d, "case": {"ident": p.ident, "group": p.group, "what": p.what, "must_compile": p.must_compile, "source": p.source}}, f, indent=1)
+            json.dump({"property": PID, "signature": sig, "detail": d, "case": {"ident": p.ident, "group": p.group, "what": p.what, "must_compile": p.must_compile, "source": p.source, "extra_deps": [list(d) for d in getattr(p, "extra_deps", [])]}}, f, indent=1)
         print("violation: %s :: %s - %s" % (sig, p.what, d))
         print("VIOLATION property=%s replay=%s" % (PID, path))
         exit_code = 1
